@@ -1,7 +1,7 @@
 #ifndef M4SIM_GEN_H
 #define M4SIM_GEN_H
 #include "ops.h"
-typedef struct { int maxdim; } genopt_t;
+typedef struct { int maxdim; int winprob; /* in 1/16: operand is a window into a larger owner */ } genopt_t;
 extern const char *const gen_all_ops[];
 int gen_nops(void);
 int gen_dim(rng_t *r, int maxd);
